@@ -23,7 +23,7 @@ RULE = (
     "distinct by operation sequence."
 )
 ASSUMPTIONS = ["sampler classes are identified by their class name, as the library does"]
-REQUIRED_COUNTERS = {"folder_holds_no_batch_checkpoint_of_another_lineup": 5, "failed_batches_then_continued": 10, "rl_scheduler_cases": 5, "moved_checkpoints": 10, "folder_reused_by_other_run": 20, "tables_checked": 80, "rows_attributed": 150, "helper_calls": 40, "restores": 40, "dropped_class_checkpoints": 10,
+REQUIRED_COUNTERS = {"user_subclasses_of_a_built_in": 8, "user_classes_with_a_name_attribute": 3, "folder_holds_a_stale_temporary_params_file": 8, "sampler_objects_shared_with_a_calibrator_of_another_order": 4, "replacements_before_the_first_batch": 6, "highest_id_retired_then_new_class_added": 4, "scheduler_extended_in_place_and_announced_again": 4, "folder_holds_no_batch_checkpoint_of_another_lineup": 5, "failed_batches_then_continued": 10, "rl_scheduler_cases": 5, "moved_checkpoints": 10, "folder_reused_by_other_run": 20, "tables_checked": 80, "rows_attributed": 150, "helper_calls": 40, "restores": 40, "dropped_class_checkpoints": 10,
                      "user_defined_classes": 5, "set_scheduler_ops": 5, "old_format_fixture": 1}
 SHARDS = {"quick": 16, "thorough": 16}
 SHARD_WATCHDOG = {"quick": 1500, "thorough": 10800}
@@ -95,18 +95,50 @@ def run_case(desc, ctx):
             wit["folder_held_no_batch_checkpoint_of_lineup"] = [d_["kind"] for d_ in other_cfg["lineup"]]
         except Exception:  # noqa: BLE001
             pass
+    if not rl and desc["i"] % 6 == 2:
+        # a previous process was killed during a save: its temporary params file is still lying in the folder
+        folder.mkdir(parents=True, exist_ok=True)
+        (folder / "calibration_params.json.tmp").write_text('{"samplers_id_table": {"HaltonSampler": 0')
+        cnt("folder_holds_a_stale_temporary_params_file")
+        wit["folder_held_a_stale_temporary_params_file"] = True
+    keep = {}
     with quiet():
-        cal = CG.build_calibrator(cfg, folder=None if rl else str(folder))
+        cal = CG.build_calibrator(cfg, folder=None if rl else str(folder), keep=keep)
+    if not rl and desc["i"] % 5 == 3 and len({type(s_).__name__ for s_ in keep["samplers"]}) >= 2:
+        # the same sampler OBJECTS are then used to build a second calibrator that lists the classes in another order
+        # (its table numbers them differently): this calibrator's labels still follow ITS table
+        try:
+            with quiet():
+                other = Calibrator(loss_function=CG.LG.build_loss(cfg["loss"]), real_data=CG.real_data(cfg), model=model,
+                                   parameters_bounds=np.array(cfg["space"]["bounds"], dtype=float), parameters_precision=np.array(cfg["space"]["precision"], dtype=float),
+                                   ensemble_size=1, samplers=list(reversed(keep["samplers"])), verbose=False, saving_folder=None, random_state=3, n_jobs=1)
+            if list(other.samplers_id_table) != list(cal.samplers_id_table):
+                cnt("sampler_objects_shared_with_a_calibrator_of_another_order")
+                wit["sampler_objects_shared_with_a_calibrator_of_another_order"] = True
+        except Exception:  # noqa: BLE001
+            pass
 
     def new_lineup(have_rows):
         n = int(rng.integers(1, 4))
         objs, names = [], []
         for k in range(n):
             u = rng.random()
-            if u < 0.25:
-                cls = U.CornerSampler if rng.random() < 0.6 else U.MidSampler
-                objs.append(cls(batch_size=int(rng.integers(1, 3)), random_state=int(rng.integers(2**31))))
+            if u < 0.3:
+                # user classes: derived from BaseSampler, derived from a built-in (next to the parent / a sibling), carrying a `name`
+                # attribute that equals another class' name, with a non-ASCII class name
+                cls = [U.CornerSampler, U.CornerSampler, U.MidSampler, U.WideHalton, U.WideHalton, U.OtherHalton, U.NamedSampler, U.ÉchantillonneurLocal][int(rng.integers(0, 8))]
+                kw = {"name": str(rng.choice(["HaltonSampler", "local search", "RandomUniformSampler"]))} if cls is U.NamedSampler else {}
+                objs.append(cls(batch_size=int(rng.integers(1, 3)), random_state=int(rng.integers(2**31)), **kw))
                 cnt("user_defined_classes")
+                if cls in (U.WideHalton, U.OtherHalton):
+                    cnt("user_subclasses_of_a_built_in")
+                    if rng.random() < 0.6:
+                        objs.append(G.build_sampler(G.gen_sampler_desc(rng, "Halton", batch_size=1)))     # ... right next to its parent
+                        names.append(type(objs[-2]).__name__)
+                        names.append("HaltonSampler")
+                        continue
+                if cls is U.NamedSampler:
+                    cnt("user_classes_with_a_name_attribute")
             else:
                 kinds = G.HISTORY_FREE + (["BestBatch"] if have_rows >= 2 else [])
                 d = G.gen_sampler_desc(rng, str(rng.choice(kinds)), batch_size=int(rng.integers(1, 3)))
@@ -131,7 +163,10 @@ def run_case(desc, ctx):
 
     nops = int(rng.integers(3, 7))
     for k in range(nops):
-        op = "calibrate" if (k == 0 or rl) else str(rng.choice(["calibrate", "calibrate", "set_samplers", "set_scheduler", "failed_batch"]))
+        op = "calibrate" if (k == 0 or rl) else str(rng.choice(["calibrate", "calibrate", "set_samplers", "set_scheduler", "failed_batch", "retire_highest_then_add", "extend_in_place"]))
+        if k == 0 and not rl and rng.random() < 0.25:
+            op = str(rng.choice(["set_samplers", "set_scheduler"]))      # the line-up is replaced BEFORE the first batch
+            cnt("replacements_before_the_first_batch")
         if rl and k > 0 and rng.random() < 0.2:
             op = "failed_batch"
         if op == "failed_batch":
@@ -219,7 +254,7 @@ def run_case(desc, ctx):
                     hidden.rename(folder)
             try:
                 with quiet():
-                    rest = Calibrator.restore_from_checkpoint(str(folder), model)
+                    rest = Calibrator.restore_from_checkpoint(str(folder) if rng.random() < 0.5 else folder, model)     # str or pathlib.Path
                 cnt("restores")
                 if dict(rest.samplers_id_table) != dict(cal.samplers_id_table):
                     out["violations"].append({"msg": f"restored id table {dict(rest.samplers_id_table)} != live {dict(cal.samplers_id_table)}" + (f" [classes no longer scheduled: {sorted(dropped)}]" if dropped else ""), "witness": wit})
@@ -228,6 +263,36 @@ def run_case(desc, ctx):
                     ops.append(["continue_from_restore"])
             except Exception as e:  # noqa: BLE001
                 out["violations"].append({"msg": f"restore raised {type(e).__name__}: {str(e)[:140]}", "witness": wit})
+        elif op == "retire_highest_then_add":
+            # two successive replacements: first the class with the HIGHEST id leaves the line-up, then a class never seen before joins
+            t0 = dict(cal.samplers_id_table)
+            cur = list(cal.scheduler.samplers)
+            top = max(cur, key=lambda s_: t0[type(s_).__name__])
+            rest_ = [s_ for s_ in cur if type(s_) is not type(top)]
+            fresh_cls = [c_ for c_ in (U.CornerSampler, U.MidSampler, U.WideHalton, U.OtherHalton) if c_.__name__ not in t0]
+            if rest_ and fresh_cls and t0[type(top).__name__] == max(t0.values()):
+                ops.append(["set_samplers", [type(s_).__name__ for s_ in rest_]])
+                ops.append(["set_samplers", [type(s_).__name__ for s_ in rest_] + [fresh_cls[0].__name__]])
+                with quiet():
+                    cal.set_samplers(rest_)
+                    check_table("after the class with the highest id was retired")
+                    cal.set_samplers(rest_ + [fresh_cls[0](batch_size=1, random_state=int(rng.integers(2**31)))])
+                check_table(f"after {fresh_cls[0].__name__} joined (the class with the highest id, {type(top).__name__}, had just been retired)")
+                cnt("highest_id_retired_then_new_class_added")
+        elif op == "extend_in_place":
+            # a user scheduler that can grow: the line-up is extended in place and the SAME scheduler object is announced again
+            fresh_cls = [c_ for c_ in (U.CornerSampler, U.MidSampler, U.WideHalton, U.OtherHalton) if c_.__name__ not in cal.samplers_id_table]
+            if fresh_cls and type(cal.scheduler).__name__ in ("RoundRobinScheduler", "GrowingRoundRobin"):
+                cur = list(cal.scheduler.samplers)
+                ops.append(["set_scheduler(growing)", [type(s_).__name__ for s_ in cur]])
+                ops.append(["scheduler.add_sampler + set_scheduler(same object)", fresh_cls[0].__name__])
+                with quiet():
+                    gsch = U.GrowingRoundRobin(cur)
+                    cal.set_scheduler(gsch)
+                    gsch.add_sampler(fresh_cls[0](batch_size=1, random_state=int(rng.integers(2**31))))
+                    cal.set_scheduler(gsch)
+                check_table("after the scheduler object was extended in place and announced again")
+                cnt("scheduler_extended_in_place_and_announced_again")
         elif op == "set_samplers":
             objs, names = new_lineup(int(cal.n_sampled_params))
             ops.append(["set_samplers", names])
